@@ -353,6 +353,22 @@ func (p *Prog) Reach(g *callgraph.Graph, roots []*ssa.Function, cut map[*ssa.Fun
 			// (the resolver uses MethodByName) or through fmt.Stringer
 			for _, b := range f.Blocks {
 				for _, in := range b.Instrs {
+					// a method value (n.once.Do(n.trim)) or a package function used as a value is assumed callable
+					// by whoever it is handed to, like a closure
+					if mc, isMC := in.(*ssa.MakeClosure); isMC {
+						if fn, isFn := mc.Fn.(*ssa.Function); isFn && strings.HasSuffix(fn.Name(), "$bound") {
+							if obj, isObj := fn.Object().(*types.Func); isObj {
+								push(p.SSA.FuncValue(obj))
+							}
+						}
+					}
+					if ci, isCall := in.(ssa.CallInstruction); isCall {
+						for _, arg := range ci.Common().Args {
+							if fn, isFn := arg.(*ssa.Function); isFn && p.InPkg(fn) {
+								push(fn)
+							}
+						}
+					}
 					mi, ok := in.(*ssa.MakeInterface)
 					if !ok {
 						continue
